@@ -13,10 +13,18 @@ def check(ctx: Ctx) -> None:
         "the order to an entry with the same tonic; circle_of_fifths_order is a permutation in ascending fifths with C at "
         "index 5; KeyKeyMapping inverts Key.value. RET1: Key.transpose_key returns a value on every path (structured "
         "reachability). VS: CircleOfFifths.get_position/get_distance/from_distance and Key.transpose_key are evaluated "
-        "by an interpreter of their AST over the complete finite input space (Z12 x Z12; 15 keys x 49 intervals) -- the "
-        "functions are shown to depend on pitches only through `% 12`, so the enumeration is exhaustive.")
+        "by an interpreter of their AST over the complete finite input space (all 128 MIDI pitches for positions, Z12 x Z12 for distances; 15 keys x 49 intervals); tables a "
+        "class body computes (loops, comprehensions) are executed by the same interpreter.")
     ctx.assumptions += ["integer arguments", "Python's % on negative numbers (floor semantics) as specified by the language"]
+    from ..model import AnalysisError
     t = tables.check_tables(ctx)
     tables.check_tables_immutable(ctx)
-    tables.check_transpose_key(ctx)
-    tables.check_circle(ctx, t)
+    for name, run in (("Key.transpose_key", lambda: tables.check_transpose_key(ctx)), ("CircleOfFifths", lambda: tables.check_circle(ctx, t))):
+        try:
+            run()
+        except AnalysisError as e:
+            # the exhaustive evaluator does not model mutation of the tables; when a rule has already reported why (IMMUT: a table is
+            # changed at run time) the evaluation is moot -- otherwise an evaluator that cannot follow the code is analysis-broken
+            if not ctx.findings:
+                raise
+            ctx.undetermined("VS", f"{name}: exhaustive evaluation", f"not completed ({str(e)[:100]}); a finding above already explains the behaviour")
